@@ -338,10 +338,16 @@ func c05wsmExec(t *testing.T, run *vk.Run, env *c05wsmEnv, s *gen.WSScript, hits
 		run.Violation(sig, w)
 	}
 	env.arm(o)
-	d := gws.Dialer{HandshakeTimeout: 20 * time.Second}
-	cc, _, err := d.Dial(env.url, nil)
+	d := gws.Dialer{HandshakeTimeout: 20 * time.Second, EnableCompression: s.Deflate}
+	cc, resp, err := d.Dial(env.url, nil)
 	if err != nil {
 		t.Fatalf("hostile client dial: %v", err)
+	}
+	if s.Deflate {
+		run.Count("deflate_offers", 1)
+		if resp != nil && strings.Contains(strings.ToLower(strings.Join(resp.Header.Values("Sec-Websocket-Extensions"), ",")), "permessage-deflate") {
+			run.Count("obs_deflate_negotiated_by_server", 1)
+		}
 	}
 	played := make(chan struct{})
 	go func() { defer close(played); gen.WSPlay(cc, s) }()
@@ -519,7 +525,7 @@ func TestVerifC05WSModuleOversize(t *testing.T) {
 	vk.Quiet()
 	run := vk.Start(t, "C05", "wsmodule-oversize")
 	defer run.Finish()
-	run.Rule("pre-auth messages of 17, 24, 64 MiB (thorough: +128 MiB) to the module's /_tunnox route, each as ONE binary frame and as the gorilla client sends it (4 KiB fragments), first on the connection and after a handshake packet; fragmented messages whose continuation frames sum past the cap (24 x 1 MiB, 400 x 64 KiB, 15.5 MiB of 64 KiB fragments + one 30 MiB final fragment, 1 MiB + 2^40 declared); content = a packet header declaring 4 GiB; oracle: TotalAlloc per ReadPacket <= 12 x Max (what a legal 16 MiB message costs is measured in this run: legal_max_* observations); plus the legal maximum: a Max-byte body written by the real WritePacket over the real client transport conn (transport.NewWebSocketStreamConn) decodes identically and reaches the session; distinct = (case, delivery, outcome)")
+	run.Rule("pre-auth messages of 17, 24, 64 MiB (thorough: +128 MiB) to the module's /_tunnox route, each as ONE binary frame and as the gorilla client sends it (4 KiB fragments), first on the connection and after a handshake packet; fragmented messages whose continuation frames sum past the cap (24 x 1 MiB, 400 x 64 KiB, 15.5 MiB of 64 KiB fragments + one 30 MiB final fragment, 1 MiB + 2^40 declared); content = a packet header declaring 4 GiB; the same from a client that offers permessage-deflate (gorilla Dialer EnableCompression) with zero-filled messages inflating to 3x, 4x, 8x Max (thorough 16x); oracle: TotalAlloc per ReadPacket <= 12 x Max (what a legal 16 MiB message costs is measured in this run: legal_max_* observations); plus the legal maximum: a Max-byte body written by the real WritePacket over the real client transport conn (transport.NewWebSocketStreamConn) decodes identically and reaches the session; distinct = (case, delivery, outcome)")
 	env := c05wsmNewEnv(t)
 	defer env.Close()
 	hits := 0
@@ -610,10 +616,57 @@ func TestVerifC05WSModuleOversize(t *testing.T) {
 		runtime.GC()
 		return hits < 15 && run.Violations() < 20
 	})
+	// ---- a peer that offers permessage-deflate ---------------------------------------------
+	// Highly compressible messages that inflate to 3x..8x Max: whatever the server negotiates,
+	// what it allocates for one ReadPacket stays under the bound (if it agrees to the
+	// extension, the limit has to hold for the INFLATED message). A small well-formed packet
+	// from the same kind of client must still decode.
+	if !stopped && hits < 15 {
+		small := &gen.WSScript{Family: "deflate", Sub: "small-valid-packets", Deflate: true, End: "close+fin",
+			Acts: []gen.WSAct{gen.WSBin(gen.Frame(0x01, gen.WSHandshakeBody)), gen.WSBin(gen.Frame(0x22, make([]byte, 100000)))}}
+		if o, ok := c05wsmExec(t, run, env, small, &hits, c05wsmAllocBoundMaxMsg); !ok {
+			stopped = true
+		} else if o.OK == 2 {
+			run.Count("deflate_client_valid_packets_decoded", 1)
+		}
+	}
+	inflated := []int{3, 4, 8}
+	if run.Thorough() {
+		inflated = append(inflated, 16)
+	}
+	for _, k := range inflated {
+		for _, pos := range []string{"first", "after-handshake-packet"} {
+			if stopped || hits >= 15 {
+				break
+			}
+			var acts []gen.WSAct
+			prefix := 0
+			if pos != "first" {
+				hs := gen.Frame(0x01, gen.WSHandshakeBody)
+				acts = append(acts, gen.WSBin(hs))
+				prefix = len(hs)
+			}
+			acts = append(acts, gen.WSAct{Kind: "bin", Data: gen.FrameLen(0x22, 0xFFFFFFFF, make([]byte, k*c05wsmMax-5)),
+				Note: fmt.Sprintf("one binary message of %d x Max zero bytes behind a packet header declaring 2^32-1; compressed by the client if the server agrees to permessage-deflate", k)})
+			s := &gen.WSScript{Family: "oversize", Sub: fmt.Sprintf("deflate-%dxMax#%s", k, pos), Acts: acts, End: "fin", Prefix: prefix, Deflate: true}
+			o, ok := c05wsmExec(t, run, env, s, &hits, c05wsmAllocBoundMaxMsg)
+			if !ok {
+				stopped = true
+				break
+			}
+			run.Count("oversize_compressible_messages_from_deflate_client", 1)
+			if o.Bytes > int64(prefix) {
+				run.Count("oversize_messages_with_data_delivered", 1)
+			}
+			runtime.GC()
+		}
+	}
 	if !stopped && run.Counter("watchdog") == 0 {
 		run.Count("completed_without_watchdog", 1)
 	}
 	run.Floor("completed_without_watchdog", 1)
+	run.Floor("oversize_compressible_messages_from_deflate_client", 6)
+	run.Floor("deflate_client_valid_packets_decoded", 1)
 	run.Floor("legal_max_message_decoded", 1)
 	run.Floor("oversize_single_frames", 6)
 	run.Floor("oversize_fragmented_messages", 8)
